@@ -77,3 +77,53 @@ Record SimQ (Q : mvalue -> value -> Prop) (st : mstate) (ast : astate) : Prop :=
 }.
 (* every root erases to the value the reclamation-free machine holds at the same place *)
 Definition Sim (st : mstate) (ast : astate) : Prop := SimQ (vrel (m_heap st)) st ast.
+
+(* not a Borrowed string into the frame arena or into a pool slot *)
+Definition nbp (rf : ref) : Prop :=
+  match rf with RefB false RFrame _ _ | RefB false RPool _ _ => False | _ => True end.
+
+(* ---------- example op sequences used by Properties/C02.v ---------- *)
+Definition b_aa : list Z := [97; 97]%Z.
+Definition b_bb : list Z := [98; 98]%Z.
+Definition b_cc : list Z := [99; 99]%Z.
+Definition b_dd : list Z := [100; 100]%Z.
+Definition num7 : op := OScalar (SNum (of_Z 7)).
+(* make x get "aa" add "bb"   x get "cc" add "dd"   shout(x) *)
+Definition p_recycle : list op :=
+  [OLit b_aa; OLit b_bb; OConcat; OMake 0; OLit b_cc; OLit b_dd; OConcat; OAssign 0; ORead 0; OShout].
+(* make a get []   2 x ( a.push("aa" add "bb") )   shout(a) *)
+Definition p_loop : list op :=
+  [OMkArr 0; OMake 1;
+   OLoopIter; OPushScope; OLit b_aa; OLit b_bb; OConcat; OPromote; OPush 1 []; OPopScope; OLoopIterEnd;
+   OLoopIter; OPushScope; OLit b_aa; OLit b_bb; OConcat; OPromote; OPush 1 []; OPopScope; OLoopIterEnd;
+   ORead 1; OShout].
+(* do g() start make s get "aa" add "bb"  return s end   shout(g()) *)
+Definition p_ret_frame : list op :=
+  [OCallBegin; OCallBind []; OPushScope; OLit b_aa; OLit b_bb; OConcat; OMake 1; ORead 1;
+   OPopScope; OCallEnd; OShout].
+Definition p_ret_num : list op := [OCallBegin; OCallBind []; OPushScope; num7; OPopScope; OCallEnd; OShout].
+Definition p_ret_lit : list op := [OCallBegin; OCallBind []; OPushScope; OLit b_cc; OPopScope; OCallEnd; OShout].
+(* return arr.pop(): an owned string that lives in a pool slot *)
+Definition p_ret_pool : list op :=
+  [OCallBegin; OCallBind []; OPushScope; OLit b_aa; OLit b_bb; OConcat; OMkArr 1; OMake 3; OPop 3 [];
+   OPopScope; OCallEnd; OShout].
+(* return [p, "cc", [p add "dd"]] with a parameter *)
+Definition p_ret_arr : list op :=
+  [OCallBegin; OLit b_aa; OLit b_bb; OConcat; OCallBind [5]; OPushScope;
+   ORead 5; OLit b_cc; ORead 5; OLit b_dd; OConcat; OMkArr 1; OMkArr 3; OPopScope; OCallEnd; OShout].
+Definition cfg_alias_clone : cfg := mkCfg true true true.        (* before 8134a3d *)
+Definition cfg_unpromoted_params : cfg := mkCfg false false true.  (* before 26ade90 *)
+Definition cfg_no_staging : cfg := mkCfg false true false.
+(* make x get "aa" add "bb"   x get x   shout(x) *)
+Definition p_selfassign : list op :=
+  [OLit b_aa; OLit b_bb; OConcat; OMake 0; ORead 0; OAssign 0; ORead 0; OShout].
+(* make x get "aa" add "bb"   do f() start x get "cc" add "dd" return "!" end   shout(x add f()) *)
+Definition p_addf : list op :=
+  [OLit b_aa; OLit b_bb; OConcat; OMake 0; ORead 0; OCallBegin; OCallBind []; OPushScope;
+   OLit b_cc; OLit b_dd; OConcat; OAssign 0; OLit [33%Z]; OPopScope; OCallEnd; OConcat; OShout].
+(* do f(p) start 2 x ( p.push(7) ) return p end   shout(f([7])) *)
+Definition p_param_array : list op :=
+  [OCallBegin; num7; OMkArr 1; OCallBind [5]; OPushScope;
+   OLoopIter; OPushScope; num7; OPromote; OPush 5 []; OPopScope; OLoopIterEnd;
+   OLoopIter; OPushScope; num7; OPromote; OPush 5 []; OPopScope; OLoopIterEnd;
+   ORead 5; OPopScope; OCallEnd; OShout].
